@@ -26,6 +26,7 @@ type SpecCtx struct {
 	f    *FnEnc
 	vars map[string]binding
 	st   *State
+	inOld bool
 	old  *State
 	pkg  *types.Package
 	// bound quantifier variables shadow locals
@@ -190,6 +191,13 @@ func (c *SpecCtx) eval(x Expr) (Val, types.Type) {
 			// in postconditions parameters denote their entry values
 			if b, ok := c.vars[x.Name]; ok {
 				return b.v, b.t
+			}
+		}
+		if c.inOld {
+			// old(v) of a captured variable: what the variable held on entry (read through its cell)
+			if b, ok := c.vars["&"+x.Name]; ok {
+				t := derefType(b.t)
+				return c.load(b.v.(Term), t), t
 			}
 		}
 		if c.f != nil && c.hdrBlock != nil {
@@ -567,6 +575,7 @@ func (c *SpecCtx) evalCall(x *ECall) (Val, types.Type) {
 	case "old":
 		oc := *c
 		oc.st = c.old
+		oc.inOld = true
 		return oc.eval(x.Args[0])
 	case "val":
 		v, _ := c.eval(x.Args[0])
